@@ -707,7 +707,12 @@ func TestVerifC20(t *testing.T) {
 						}
 						v := int64(-1)
 						if c.Fault == "count-big" {
-							v = 1 << 33
+							// the smallest and other values beyond the count's wire type: TOP is an int32, LIMIT / OFFSET are uint32
+							pool := []int64{1 << 32, 1 << 33, 1 << 62}
+							if cnt == c.Top {
+								pool = []int64{1 << 31, 3000000000, 1<<32 - 1, 1 << 32, 1 << 62}
+							}
+							v = pool[(len(c.Where)+len(params)+int(cnt.V%7))%len(pool)]
 						}
 						bad[pos] = &modelv1.TagValue{Value: &modelv1.TagValue_Int{Int: &modelv1.Int{Value: v}}}
 						applicable = true
